@@ -579,4 +579,9 @@ def prepare_injected(ctx, loops_files, relfiles):
         specs += inject_loops.parse_loops_file(os.path.join(VERIF, "contracts", lf))
     for rel in relfiles:
         out = os.path.join(ctx.inj, "inj_" + os.path.basename(rel))
-        inject_loops.inject(ctx.repo, specs, rel, out, ctx.notes)
+        try:
+            inject_loops.inject(ctx.repo, specs, rel, out, ctx.notes)
+        except inject_loops.InjectError as e:
+            # the proof obligations that need the injected file become undecided (their goto-cc fails);
+            # obligations on the raw working-tree file still run and can still decide the property
+            ctx.infra_errors.append("loop-contract injection into %s failed: %s" % (rel, e))
